@@ -845,3 +845,42 @@ pub(crate) fn weak_new_cyclic_automatic_collection_panics() {
     kani::assert(!sn.collecting && !sn.finalizing && !sn.dropping, "Cc::new_cyclic::unwind::collector_idle");
     core::mem::forget(h);
 }
+
+/// C12 "allocation-triggered collection is a no-op from any callback of a running collection", stated on the
+/// two public creation functions themselves (not on the helper they happen to share): with `collecting` set
+/// (finalizer / destructor / cleaning action of a running collection), auto-collect on and the byte threshold
+/// exceeded, neither `Cc::new` nor `Cc::new_cyclic` starts a collection: executions count, flags and buffer
+/// are unchanged and no callback of the buffered object runs.
+//@ C12 C15 | complete | deciding | feat=full | fn=Cc::new,Cc::new_cyclic,trigger_collection | timeout=900
+#[cfg(feature = "auto-collect")]
+#[kani::proof]
+#[kani::unwind(9)]
+pub(crate) fn creation_inside_a_running_collection_never_collects() {
+    let h = mk_node(0);
+    let x = raw_of(&h);
+    crate::cc::add_to_list(x);
+    let (t0, c0) = havoc_idle(x, true);
+    let (f, d): (bool, bool) = (kani::any(), kani::any());
+    kani::assume(f || d);
+    state(|s| sp::set_flags(s, true, f, d));
+    let _ = crate::config::config(|c| {
+        c.set_auto_collect(true);
+        c.set_buffered_objects_threshold(None);
+    });
+    state(|s| sp::set_bytes(s, 1_000_000));
+    let sn0 = state(|s| sp::snap(s));
+    let via_cyclic: bool = kani::any();
+    if via_cyclic {
+        let c: Cc<Counted> = Cc::new_cyclic(|_w: &Weak<Counted>| Counted(1));
+        let sn = state(|s| sp::snap(s));
+        kani::assert(sn.execs == sn0.execs && (sn.collecting, sn.finalizing, sn.dropping) == (true, f, d), "Cc::new_cyclic::while_collecting::post::never_starts_a_collection");
+        core::mem::forget(c);
+    } else {
+        let c = Cc::new(Leaf(1));
+        let sn = state(|s| sp::snap(s));
+        kani::assert(sn.execs == sn0.execs && (sn.collecting, sn.finalizing, sn.dropping) == (true, f, d), "Cc::new::while_collecting::post::never_starts_a_collection");
+        core::mem::forget(c);
+    }
+    kani::assert(words_of(x) == (t0, c0) && pc_view().1 == 1 && ccp::cb_counts() == (0, 0, 0), "Cc::new::while_collecting::frame::buffer_and_objects_untouched_no_callback");
+    core::mem::forget(h);
+}
